@@ -19,7 +19,10 @@ Definition wellformed_sharing (pf : string -> pfres) (p : gpod) : bool :=
   match a_fraction p with Some s => good_fraction (pf s) | None => true end
   && match a_memory p with Some s => isSome (int63_pos s) | None => true end
   && match a_numdev p with Some s => isSome (int63_pos s) | None => true end
-  && negb (isSome (a_fraction p) && isSome (a_memory p)).
+  && negb (isSome (a_fraction p) && isSome (a_memory p))
+  (* a sharing request is never combined with a whole-GPU limit on any container, init containers included:
+     otherwise the scheduler would book the fraction only while the kubelet hands out whole devices *)
+  && negb (requests_gpu_fraction p && first_gpu_limit p).
 
 (** GPU requests equal limits on every container, as the API server enforces
     for extended resources. *)
